@@ -38,6 +38,7 @@ fn main() {
     let r = std::panic::catch_unwind(|| match args[0].as_str() {
         "line" => data::line(&args[1..]),
         "list" => data::list(&args[1..]),
+        "seq" => data::seq(&args[1..]),
         other => { eprintln!("unknown scenario {other}"); std::process::exit(2); }
     });
     if let Err(e) = r {
